@@ -39,7 +39,8 @@ def st_history(draw, max_ops=120):
     kind = draw(st.sampled_from(KINDS))
     n_ops = draw(st.integers(20, max_ops))
     k_flush = draw(st.integers(1, 10))
-    opts = {"max_depth": draw(st.sampled_from([1, 2, 2, 4])), "max_stmts": 10**9, "qubits": 3, "allow_newreg": False, "allow_regm": True}
+    opts = {"max_depth": draw(st.sampled_from([1, 2, 2, 4])), "max_stmts": 10**9, "qubits": 3, "allow_newreg": False, "allow_regm": True,
+            "explicit_loop_heavy": draw(st.sampled_from([False, False, True]))}
     g = hp._Gen(draw, opts)
     scope = {"loopvars_fut": [], "fvals": [], "loop_hi": {}, "outer_qubits": [], "own_qubits": [], "in_loop": False}
     stmts: List[Any] = []
